@@ -2,6 +2,7 @@ package main
 
 import (
 	"fmt"
+	"go/ast"
 	"go/types"
 	"strings"
 
@@ -36,6 +37,7 @@ func VerifyFunc(p *Program, key string) (enc *Enc, err error) {
 	f.curGuard = True
 	f.st = NewState()
 	f.entryState = f.st
+	e.topFrame = f
 	var ms *monitorSpec
 	if len(fc.Monitor) > 0 {
 		ms, err = parseMonitor(fc.Monitor[0])
@@ -87,7 +89,7 @@ func VerifyFunc(p *Program, key string) (enc *Enc, err error) {
 				label = fmt.Sprintf("%d", i+1)
 			}
 			t := f.evalBool(cl.E, env)
-			e.addObl("post", fmt.Sprintf("%s@ret%d", label, xi+1), x.guard, t, cl.Where, f.clauseProps(cl))
+			e.addObl("post", fmt.Sprintf("%s@%s", label, f.retText(x)), x.guard, t, cl.Where, f.clauseProps(cl))
 		}
 		f.frameObligations(x, xi)
 	}
@@ -180,7 +182,7 @@ func (f *Frame) frameObligations(x exitPoint, xi int) {
 			continue
 		}
 		if s.K != SArray || s.Idx.K != SInt {
-			e.addObl("frame", k+fmt.Sprintf("@ret%d", xi+1), x.guard, Eq(cur, old), fc.Where, f.props())
+			e.addObl("frame", k+"@"+f.retText(x), x.guard, Eq(cur, old), fc.Where, f.props())
 			continue
 		}
 		// for every object allocated at entry and not listed: unchanged
@@ -191,7 +193,7 @@ func (f *Frame) frameObligations(x exitPoint, xi int) {
 			conds = append(conds, Neq(ov, a))
 		}
 		goal := Forall([]Bound{ob}, Implies(And(conds...), Eq(Select(cur, ov), Select(old, ov))))
-		e.addObl("frame", k+fmt.Sprintf("@ret%d", xi+1), x.guard, goal, fc.Where, f.props())
+		e.addObl("frame", k+"@"+f.retText(x), x.guard, goal, fc.Where, f.props())
 	}
 }
 
@@ -227,3 +229,13 @@ func VerifyLemma(p *Program, lm *Lemma) (*Enc, error) {
 }
 
 var _ = types.Typ
+
+
+// retText: source text of the return statement (stable under insertion of other returns)
+func (f *Frame) retText(x exitPoint) string {
+	t := f.E.P.exprTextAt(x.pos, func(n ast.Node) bool { _, ok := n.(*ast.ReturnStmt); return ok })
+	if t == "" {
+		return "return"
+	}
+	return t
+}
